@@ -292,11 +292,17 @@ WCompound(f, i, j) == LET x == r[i]  y == r[j]  ks == {x.kind, y.kind}  p == x.h
                           q == ~IsNA(x.val) /\ ~IsNA(y.val)  kn == Known(ks, f, {x.val, y.val}) IN
     Want(x.kind, p, IF p THEN (IF kn THEN Ap2(ks, b, x.val, y.val) ELSE 0) ELSE x.val,
          (p /\ kn) \/ (~p /\ b \in {"div", "mod"}), ~(p /\ q), IsD(ks))
-Compound(f, i, j, o) ==
+(* cj: the VALUE CATEGORY / constness of the right operand as the call names it -- a const lvalue ("cl"), a    *)
+(* non-const lvalue ("lv": an ordinary variable), an rvalue ("rv": a temporary, e.g. the result of another call). *)
+(* The property does not depend on it: the same answer is demanded for all three.                                  *)
+Cats   == {"cl", "lv", "rv"}
+MCCats == Cats              \* the categories the model checker enumerates (a cfg may override it)
+Compound(f, i, j, cj, o) ==
     /\ f \in AsgOps /\ i \in Regs /\ j \in Regs /\ r[i].kind \in Writable /\ PatOK(KS({i, j})) /\ OpOK(f, KS({i, j}))
+    /\ cj \in Cats
     /\ DivOK(KS({i, j}), AsgBase[f], r[i].has /\ r[j].has /\ ~IsNA(r[i].val), r[j].val)
     /\ Legal(o, WCompound(f, i, j))
-    /\ Do("Compound", [f |-> f, i |-> i, j |-> j], o,
+    /\ Do("Compound", [f |-> f, i |-> i, j |-> j, cj |-> cj], o,
           [r EXCEPT ![i] = [kind |-> @.kind, has |-> o.has, val |-> o.val]])
 
 (* select(c, x, y): missing when the condition is missing, otherwise the chosen branch unchanged. *)
@@ -474,10 +480,10 @@ NBinary == G /\ "binary" \in Classes /\ C({3}) /\ \E f \in F(BinOps \cup BFuns),
 NTernary == G /\ "ternary" \in Classes /\ \E f \in F(TFuns), i \in I1, j \in I2, k \in I3, d \in D0 :
     PatOK(KS({i, j, k})) /\ OpOK(f, KS({i, j, k})) /\ Ternary(f, i, j, k, d, Canon(WTernary(f, i, j, k)))
 NCompare == G /\ "compare" \in Classes /\ C({3}) /\ \E f \in F(CmpOps), i \in I1, j \in I2 : Compare(f, i, j, Canon0(WCompare(f, i, j)))
-NCompound == G /\ "compound" \in Classes /\ C({3}) /\ \E f \in F(AsgOps), i \in I1, j \in I2 :
-    (IF Canonical THEN TRUE ELSE i # j) /\ PatOK(KS({i, j})) /\ OpOK(f, KS({i, j})) /\ Compound(f, i, j, Canon(WCompound(f, i, j)))
-NCompoundSelf == G /\ "compound" \in Classes /\ C({2, 3}) /\ \E f \in F(AsgOps), i \in I1 :          \* x op= x
-    LiftedK(r[i].kind) /\ OpOK(f, KS({i})) /\ Compound(f, i, i, Canon(WCompound(f, i, i)))
+NCompound == G /\ "compound" \in Classes /\ C({3}) /\ \E f \in F(AsgOps), i \in I1, j \in I2, cj \in MCCats :
+    (IF Canonical THEN TRUE ELSE i # j) /\ PatOK(KS({i, j})) /\ OpOK(f, KS({i, j})) /\ Compound(f, i, j, cj, Canon(WCompound(f, i, j)))
+NCompoundSelf == G /\ "compound" \in Classes /\ C({2, 3}) /\ \E f \in F(AsgOps), i \in I1, cj \in MCCats :          \* x op= x
+    LiftedK(r[i].kind) /\ OpOK(f, KS({i})) /\ Compound(f, i, i, cj, Canon(WCompound(f, i, i)))
 NSelect == G /\ "select" \in Classes /\ C({3}) /\ \E c \in Conds, i \in I1, j \in I2, d \in D0 : Select(c, i, j, d, Canon0(WSelect(c, i, j)))
 NValueOr == G /\ "valueor" \in Classes /\ C({2, 3}) /\ \E i \in I1, dv \in Vals, form \in {"lv", "rv", "crv"} : r[i].kind \in OptKinds /\ ValueOr(i, dv, form, Canon0(WValueOr(i, dv)))
 NGet == G /\ "access" \in Classes /\ C({2, 3}) /\ \E i \in I1, p \in {"member", "free", "rvalue", "conv", "stream"} :
